@@ -158,6 +158,8 @@ func (s *Sim) oracleC03(op Op) {
 	// nodes vs applications
 	nodeSum := Res{}
 	halves := Res{}
+	orphans := Res{}
+	failedOrphans := Res{}
 	seenOnNode := map[string]string{}
 	for _, nid := range sortedKeys(p.Nodes) {
 		n := p.Nodes[nid]
@@ -168,7 +170,15 @@ func (s *Sim) oracleC03(op Op) {
 			seenOnNode[k] = nid
 			app := p.Apps[al.App]
 			if app == nil {
-				s.violate("C03", "node-alloc-orphan", "", "node %s holds allocation %s of application %s which is not live", nid, k, al.App)
+				st := "app-unknown"
+				if d := p.Done[al.App]; d != nil {
+					st = "app-" + d.State
+					if d.State == "Failed" || d.State == "Failing" {
+						failedOrphans.AddTo(al.Res)
+					}
+				}
+				orphans.AddTo(al.Res)
+				s.violate("C03", "node-alloc-orphan", st, "node %s holds allocation %s of application %s which is not live (%s)", nid, k, al.App, st)
 				continue
 			}
 			if _, ok := app.Allocs[k]; !ok {
@@ -213,7 +223,13 @@ func (s *Sim) oracleC03(op Op) {
 	}
 	if root := p.Queues["root"]; root != nil {
 		if !root.Alloc.Add(halves).Eq(nodeSum) {
-			s.violate("C03", "root-vs-nodes", "", "root allocated %s (+ in-flight real halves %s) differs from the sum of node allocated %s", root.Alloc, halves, nodeSum)
+			detail := ""
+			if !failedOrphans.IsZero() && root.Alloc.Add(halves).Add(failedOrphans).Eq(nodeSum) {
+				detail = "orphans-of-failed-app"
+			} else if !orphans.IsZero() && root.Alloc.Add(halves).Add(orphans).Eq(nodeSum) {
+				detail = "orphans"
+			}
+			s.violate("C03", "root-vs-nodes", detail, "root allocated %s (+ in-flight real halves %s) differs from the sum of node allocated %s", root.Alloc, halves, nodeSum)
 		}
 	}
 	// partition counters
@@ -226,11 +242,15 @@ func (s *Sim) oracleC03(op Op) {
 			}
 		}
 	}
+	// the partition's own counters are not among the books the statement lists: drift is recorded, not raised
 	if p.PartAllocs != nAlloc {
-		s.violate("C03", "partition-alloc-count", "", "partition counts %d allocations, applications list %d", p.PartAllocs, nAlloc)
+		s.probe("partition_alloc_counter_drift")
 	}
 	if p.PartPh != nPh {
-		s.violate("C03", "partition-placeholder-count", "", "partition counts %d placeholder allocations, applications list %d", p.PartPh, nPh)
+		s.probe("partition_placeholder_counter_drift")
+	}
+	if nPh > 0 && p.PartPh == 0 {
+		s.violate("C06", "placeholder-counter-zero", "", "%d placeholder allocations exist but the partition placeholder counter is 0 (replacement will never be tried)", nPh)
 	}
 	// total partition resource = sum of node capacities
 	capSum := Res{}
@@ -256,7 +276,11 @@ func (s *Sim) oracleC03(op Op) {
 		}
 		app := p.Apps[m.App]
 		if app == nil {
-			s.violate("C03", "shim-alloc-no-app", "", "the shim holds %s as bound for %s, the core has no such live application", k, m.App)
+			st := "app-unknown"
+			if d := p.Done[m.App]; d != nil {
+				st = "app-" + d.State
+			}
+			s.violate("C03", "shim-alloc-no-app", st, "the shim holds %s as bound for %s, the core has no such live application (%s)", k, m.App, st)
 			continue
 		}
 		al, ok := app.Allocs[k]
@@ -279,6 +303,9 @@ func (s *Sim) oracleC03(op Op) {
 				st := "unknown"
 				if m != nil {
 					st = m.Status
+					if m.ReleasedDuringSwap {
+						st = "ask-released-during-swap"
+					}
 				}
 				s.violate("C03", "core-alloc-not-in-shim", st, "application %s lists allocation %s on %s, the shim holds it as %s", id, k, al.Node, st)
 			}
@@ -624,7 +651,19 @@ func (s *Sim) oracleC11(op Op, evs []SIEvent) {
 			}
 		}
 		if q.MaxApps > 0 && q.Running > q.MaxApps {
-			s.violate("C11", "running-above-max", "", "queue %s reports %d running applications, maximum is %d", path, q.Running, q.MaxApps)
+			// above the maximum is only legal as the left-over of a maximum that was lowered (reload, or a tag of a later
+			// application on a dynamic queue) under applications already running: the count must not have gone up
+			var preRunning uint64
+			if s.pre != nil {
+				if pq := s.pre.Queues[path]; pq != nil {
+					preRunning = pq.Running
+				}
+			}
+			if q.Running > preRunning {
+				s.violate("C11", "running-above-max", "", "queue %s reports %d running applications (was %d), maximum is %d", path, q.Running, preRunning, q.MaxApps)
+			} else {
+				s.probe("running_above_lowered_max")
+			}
 		}
 		if int(q.Running) > running {
 			s.violate("C11", "running-above-actual", "", "queue %s reports %d running applications, only %d applications below it are Running", path, q.Running, running)
